@@ -1120,6 +1120,12 @@ func (f *Flag) Wait(deadline int64) bool {
 	return true
 }
 
+// ResetSpin tells the livelock detector that the running (harness) task is making progress by design
+// (an enumeration loop that never needs to block).
+//
+//go:norace
+func ResetSpin() { W.cur.since = 0 }
+
 // Kick tells the scheduler that a channel changed state outside rewritten code (e.g. context cancel).
 //
 //go:norace
